@@ -158,7 +158,9 @@ pub fn run(a: &Args) -> i32 {
                 }
                 let case = json!({"edit": edit.name(), "description": desc, "schema": sdl2, "query": q2,
                                   "implementation": real.kind(), "original_query": qtext});
-                if real.kind() == "ok" {
+                // (two operations of one name are not among the invalidities the statement lists - the repaired code rejects
+                // them, the model follows it, and a difference is reported below as a broken tie, not as a violation)
+                if real.kind() == "ok" && *edit != Edit::DuplicateOperationName {
                     rep.fail(edit.name(), case.clone());
                 }
                 if let Some(mv) = mv {
